@@ -749,6 +749,21 @@ def r_cand(ctx):
     for nd, tag, arg in apps:
         conds = ctx.conds(f, nd)
         indel = [pol for a, pol in conds if a == ('v', 'has_indel', 'P')]
+        # has_indel may also gate a candidate through the iterable of an enclosing loop (`for x in [] if not has_indel else ...`)
+        for L_ in nd.loops:
+            ln_ = f.nodes[L_]
+            if isinstance(ln_.stmt, ast.For):
+                it_ = f.term(ln_.stmt.iter, ln_)
+                for x_ in walk_term(it_):
+                    if x_[0] == 'ifexp' and any(y_ == ('v', 'has_indel', 'P') for y_ in walk_term(x_[1])):
+                        empty_when = None
+                        for arm_, pol_ in ((x_[2], True), (x_[3], False)):
+                            if arm_ in (('list',), ('tuple',), ('c', '')):
+                                for a_, p_ in flatten_cond(x_[1], pol_):
+                                    if a_ == ('v', 'has_indel', 'P'):
+                                        empty_when = p_
+                        if empty_when is not None:
+                            indel.append(not empty_when)    # candidates only when has_indel is (not empty_when)
         if tag == 'S':
             run.check(not indel, 'R-CAND', f, 'S:independent-of-has_indel', nd.lineno,
                       'substitution candidates are produced whatever has_indel is',
@@ -1157,15 +1172,18 @@ def r_ret(ctx):
                     return True
             return False
 
-        def source(t_, at, extra, depth=0):
-            """judge the collection t_ as seen at node `at`; reports add sites itself"""
+        def source(t_, at, extra, depth=0, in_set=False):
+            """judge the collection t_ as seen at node `at`; reports add sites itself.  in_set: the collection has already passed
+            through set(...), so what it was collected in before no longer matters for duplicates"""
             if depth > 6:
                 state['undecided'] = 'nesting too deep'
                 return
             unchecked_ok = no_check_here(at, extra)
             while is_call(t_, 'builtins.list', 'builtins.set', 'builtins.tuple', 'builtins.frozenset') and len(t_[2]) == 1:
+                if is_call(t_, 'builtins.set', 'builtins.frozenset'):
+                    in_set = True
                 t_ = t_[2][0]
-            if t_[0] == 'comp' and t_[1] == 'set' and len(t_[3]) == 1:
+            if t_[0] == 'comp' and (t_[1] == 'set' or (in_set and t_[1] in ('list', 'gen'))) and len(t_[3]) == 1:
                 gen, conds_ = t_[3][0]
                 elt = t_[2]
                 ex = list(extra)
@@ -1177,7 +1195,7 @@ def r_ret(ctx):
                     run.ok('R-RET', f, 'comprehension:candidate-check-consistent', at.lineno, how or 'no check supplied on this path')
                     return
                 if elt[0] == 'iter' and elt[1] == gen:
-                    return source(gen, at, extra, depth + 1)      # an unfiltered copy of its source
+                    return source(gen, at, extra, depth + 1, True)      # an unfiltered copy of its source
                 state['undecided'] = 'set comprehension %s' % show(t_)[:60]
                 return
             if t_[0] == 'v' and isinstance(t_[2], tuple):
@@ -1207,11 +1225,26 @@ def r_ret(ctx):
                                             run.refute('R-RET', f, 'result-set:%s' % d2.extra.attr, x.lineno,
                                                        'the result set is modified by .%s()' % d2.extra.attr, inputs='every call')
                         elif dt is not None and (dt[0] in ('comp', 'v') or is_call(dt, 'builtins.set', 'builtins.list')):
-                            if dt[0] == 'list' or (dt[0] == 'comp' and dt[1] != 'set'):
+                            if (dt[0] == 'list' or (dt[0] == 'comp' and dt[1] != 'set')) and not in_set:
                                 state['not_set'] = show(dt)[:50]
-                            source(dt, f.nodes[d.node], extra, depth + 1)
+                            source(dt, f.nodes[d.node], extra, depth + 1, in_set)
                         elif dt == ('list',) or (dt is not None and dt[0] == 'comp' and dt[1] == 'list'):
-                            state['not_set'] = show(dt)[:50]
+                            if not in_set:
+                                state['not_set'] = show(dt)[:50]
+                            elif dt == ('list',):
+                                # a plain list grown by append and later deduplicated by set(): every append is an add site
+                                for x in f.nodes:
+                                    for d2 in x.defs:
+                                        if d2.kind == 'mutate' and d2.name == name_ and isinstance(d2.extra, ast.Attribute) and \
+                                                d2.extra.attr == 'append':
+                                            state['adds'] += 1
+                                            tt = f.term(d2.value, x)
+                                            val = tt[2][0] if tt[2] else None
+                                            how = passes_check(x, val) if val is not None else None
+                                            if unchecked_ok and not how:
+                                                how = 'the collection is returned only where no check is supplied'
+                                            if not how:
+                                                state['undecided'] = 'candidates appended to `%s` before the check is applied' % name_
                         else:
                             state['undecided'] = 'definition %s of `%s`' % (show(dt)[:50] if dt else None, name_)
                     elif d.kind == 'mutate':
